@@ -20,7 +20,9 @@ def rand_node(rng, depth, ids, refuse_ok):
     mws = []
     for _ in range(rng.range(0, 3 if refuse_ok else 1)):
         ids[0] += 1
-        mws.append([ids[0], (rng.choice([0, 2, 2]) if (refuse_ok and rng.chance(1, 2)) else 1)])
+        # refusal style of the instrumented middleware: id < 1000 complete 403, 1000.. nothing written, 2000.. own fragment, no close
+        style = rng.choice([0, 0, 1000, 2000]) if refuse_ok else 0
+        mws.append([style + ids[0], (rng.choice([0, 2, 2]) if (refuse_ok and rng.chance(1, 2)) else 1)])
     redirs = [[rng.choice(REDIRPATS), rng.choice(TEMPLATES)] for _ in range(rng.range(0, 3) if rng.chance(2, 3) else 0)]
     subs = []
     if depth > 0:
